@@ -40,6 +40,7 @@ type c11Case struct {
 	Randomize bool            `json:"randomize,omitempty"`
 	SCID      int             `json:"scid"`
 	IDsFirst  bool            `json:"ids_first,omitempty"` // call TransportParameterIDs() before the first dial
+	Measured  bool            `json:"measured,omitempty"`  // the application measures / serialises the spec's own transport parameters extension before the first dial (as when sizing a ClientHello or using the spec with plain uTLS)
 	Dials     int             `json:"dials"`
 }
 
@@ -426,7 +427,7 @@ func c11Cases(l *evlog.Log) []c11Case {
 	dials := l.Pick(3, 4)
 	for _, id := range quicworld.QUICIDNames {
 		for v := 0; v < l.Pick(12, 40); v++ {
-			c := c11Case{Name: fmt.Sprintf("quicid/%s/%d", id, v), QUICID: id, Dials: dials, IDsFirst: v%2 == 1, Randomize: v%3 == 2}
+			c := c11Case{Name: fmt.Sprintf("quicid/%s/%d", id, v), QUICID: id, Dials: dials, IDsFirst: v%2 == 1, Randomize: v%3 == 2, Measured: v%4 == 3}
 			switch v % 6 {
 			case 1:
 				c.Suppress = []uint64{27}
@@ -444,7 +445,7 @@ func c11Cases(l *evlog.Log) []c11Case {
 	for i := 0; i < l.Pick(5000, 40000); i++ {
 		list := specgen.GenList(rng, 14)
 		c := c11Case{Name: fmt.Sprintf("gen/%05d", i), Hello: hellos[rng.IntN(len(hellos))], List: list, Suppress: specgen.GenSuppress(rng, list),
-			Randomize: rng.IntN(2) == 0, SCID: []int{0, 3, 8, 20}[rng.IntN(4)], IDsFirst: rng.IntN(2) == 0, Dials: dials}
+			Randomize: rng.IntN(2) == 0, SCID: []int{0, 3, 8, 20}[rng.IntN(4)], IDsFirst: rng.IntN(2) == 0, Measured: rng.IntN(3) == 0, Dials: dials}
 		out = append(out, c)
 	}
 	// a standard parameter written as a raw (fake) parameter, e.g. to pin a non-minimal encoding
@@ -472,6 +473,15 @@ func TestVerifC11Wire(t *testing.T) {
 			cls := "generated"
 			if cs.QUICID != "" {
 				cls = "quicid=" + cs.QUICID
+			}
+			if cs.Measured && spec.ClientHelloSpec != nil {
+				for _, ext := range spec.ClientHelloSpec.Extensions {
+					if q, ok := ext.(*tls.QUICTransportParametersExtension); ok {
+						buf := make([]byte, q.Len())
+						q.Read(buf)
+						l.Count("specs_measured_before_dial", 1)
+					}
+				}
 			}
 			var idsFirst []uint64
 			if cs.IDsFirst {
